@@ -100,7 +100,7 @@ def mutations(rng, items, tier):
     return out
 
 
-FORMS = ["var v = 1;", "var v;", "v = v + 1;", "v += 2 * 3;", "print(v, 1);", "import \"lib/util\";", "import \"lib/util\" as u;", "fn g(a, b) { return a; }",
+FORMS = ["import \"\" as odd;", "import \"..\" as odd;", "import \"/\";", "var v = 1;", "var v;", "v = v + 1;", "v += 2 * 3;", "print(v, 1);", "import \"lib/util\";", "import \"lib/util\" as u;", "fn g(a, b) { return a; }",
          "var f = |a, b| a + b;", "var f = || { return 1; };", "if v { v = 1; } else if w { v = 2; } else { v = 3; }", "while v < 3 { v = v + 1; continue; }",
          "for i in 0..3 { if i { break; } }", "return v;", "throw Error.new(\"x\");", "try { v = 1; } catch e { v = 2; } finally { v = 3; }", "try { v = 1; } finally { v = 3; }",
          "{ var inner = 1; { var inner = 2; } }", "class K { fn m(self, a) { return self.a; } #[static] fn s() { return Self; } }",
